@@ -213,6 +213,40 @@ theorem podEvent_eff (c : Ctl) (old : Option Pod) (p : Pod) (k : PodEvKind)
             rw [herased k'] at this
             cases this
 
+/-- the IP `PodCache.onEvent` works with: the pod's, or the one the cache remembers for a pod without IP -/
+def effIP (c : Ctl) (p : Pod) : String := if p.ip = "" then (alookup p.key c.ipBy).getD "" else p.ip
+
+/-- an add/update event of a pod replays every slice registered in `needResync` under the event's IP -/
+theorem podEvent_replays_waiting (c : Ctl) (old : Option Pod) (p : Pod) (k : PodEvKind) (hk : k ≠ .del)
+    (k' : String) (h : setContains c.resync (effIP c p) k' = true) (hne : effIP c p ≠ "") :
+    Ev.replay k' ∈ (podEvent c old p k).2 := by
+  unfold effIP at h hne
+  have htw : Ev.replay k' ∈ (takeWaiting c (if p.ip = "" then (alookup p.key c.ipBy).getD "" else p.ip)).2 := by
+    unfold takeWaiting
+    unfold setContains at h
+    cases hl : alookup (if p.ip = "" then (alookup p.key c.ipBy).getD "" else p.ip) c.resync with
+    | none => rw [hl] at h; cases h
+    | some keys =>
+      rw [hl] at h
+      simp only []
+      rw [List.mem_map]
+      exact ⟨k', by simpa using h, rfl⟩
+  unfold podEvent
+  simp only []
+  rw [if_neg hne]
+  cases k with
+  | del => exact absurd rfl hk
+  | add =>
+    simp only [reduceCtorEq, if_false]
+    split
+    · exact List.mem_append_left _ htw
+    · exact htw
+  | upd =>
+    simp only [reduceCtorEq, if_false]
+    split
+    · exact htw
+    · exact List.mem_append_left _ htw
+
 /-! ### store lemmas for pods -/
 
 theorem find_upsertBy_other {α : Type} (same q : α → Bool) (v : α) (l : List α)
@@ -296,27 +330,36 @@ def Unreferenced (c : Ctl) (ns name : String) : Prop :=
 def Refs (sl : Slice) (ns name : String) : Prop :=
   ∃ ea ∈ sl.addrPairs, ea.1.target = some (ns, name)
 
-/-- the condition under which a Pod add/update is repaired by the controller:
-    * a new pod: every endpoint that refers to it carries the pod's IP (then the slice is waiting in
-      `needResync` under that IP and is replayed) - finding `waiting-address-differs-from-pod-ip` otherwise;
+/-- the condition under which a Pod add/update is repaired by the controller (`P` = the slices exempt
+    before the write):
+    * the pod GETS its IP with this write (it is new, or had none): every endpoint that refers to it carries that
+      IP (then the slice is waiting in `needResync` under that IP and is replayed) - finding
+      `waiting-address-differs-from-pod-ip` otherwise; a new pod WITHOUT IP (the usual first event: Pending) needs
+      nothing: the slices that refer to it wait on (`WaitP`);
     * an update: `recomputeServiceForPod` is not reached (its early exit is finding
-      `health-built-before-service-known`), and either labels, service account and node are unchanged
-      (phase, readiness, IP assignment, deletion timestamp are free) or no endpoint refers to the pod yet
-      (a pending pod that is bound to a node, relabelled, ... before the slice controller publishes it) -
-      findings `labels-built-before-pod-label-change`, `locality-built-before-node-change`,
-      `identity-of-replaced-pod` otherwise. -/
-def PodGood (c : Ctl) (v : Pod) : Prop :=
+      `health-built-before-service-known`), and either labels, service account and node are unchanged (phase,
+      readiness, IP assignment, deletion timestamp are free) or no endpoint of a slice that is not exempt refers
+      to the pod (a pending pod that is bound to a node, relabelled, ... before the slice controller publishes
+      it, or while the slices that refer to it wait for its IP) - findings
+      `labels-built-before-pod-label-change`, `locality-built-before-node-change`, `identity-of-replaced-pod`
+      otherwise. -/
+def PodGood (c : Ctl) (P : Slice → Prop) (v : Pod) : Prop :=
   match findPod c.pods v.ns v.name with
-  | none => ∀ sl ∈ c.slices, ∀ ea ∈ sl.addrPairs, ea.1.target = some (v.ns, v.name) → ea.2 = v.ip ∧ v.ip ≠ ""
-  | some o => NoRecompute c (some o) v ∧ (podSig o = podSig v ∨ Unreferenced c v.ns v.name)
+  | none => v.ip = "" ∨ ∀ sl ∈ c.slices, ∀ ea ∈ sl.addrPairs, ea.1.target = some (v.ns, v.name) → ea.2 = v.ip
+  | some o => NoRecompute c (some o) v ∧
+      (podSig o = podSig v ∨ ∀ sl ∈ c.slices, ¬ P sl → ∀ ea ∈ sl.addrPairs, ea.1.target ≠ some (v.ns, v.name)) ∧
+      (o.ip = "" → v.ip ≠ "" → ∀ sl ∈ c.slices, ∀ ea ∈ sl.addrPairs, ea.1.target = some (v.ns, v.name) → ea.2 = v.ip)
 
 /-- Endpoint before pod, pod status changes, IP assignment: after a Pod add/update handled with the
     queue drained (the event, then the replays it queued) the invariant holds again. -/
 theorem pod_write_inv (c : Ctl) (v : Pod) (c' : Ctl) (hph : v.phase ≠ "F") (hstep : stepC c (.pod v) = some c')
-    {P : Slice → Prop} {Q : Svc → Prop} (hinv : InvExcept c P Q)
+    {P P' : Slice → Prop} {Q : Svc → Prop} (hinv : InvExcept c P Q)
     (hwf : WF { c with pods := upsertBy (fun x => x.ns = v.ns ∧ x.name = v.name) v c.pods })
     (hnc : NoCachedAddr c) (hnc' : NoCachedAddr c')
-    (hgood : PodGood c v) : InvExcept c' P Q := by
+    (hgood : PodGood c P v)
+    (hPP' : ∀ x ∈ c.slices, P x → P' x ∨ (effIP c v ≠ "" ∧ setContains c.resync (effIP c v) x.key = true))
+    (hnew : findPod c.pods v.ns v.name = none → v.ip = "" → ∀ x ∈ c.slices, Servable x → Refs x v.ns v.name → P' x) :
+    InvExcept c' P' Q := by
   rw [stepC_pod c v hph] at hstep
   simp only [Option.some.injEq] at hstep
   subst hstep
@@ -360,12 +403,24 @@ theorem pod_write_inv (c : Ctl) (v : Pod) (c' : Ctl) (hph : v.phase ≠ "F") (hs
       rw [hfo] at hgood
       exact hgood.1
   obtain ⟨ks, hR, heff, htake, _⟩ := podEvent_eff c1 old v kind hnr
+  -- an exempt slice stays exempt or is replayed
+  have hPk : ∀ x ∈ c.slices, P x → P' x ∨ x.key ∈ ks := by
+    intro x hx hp
+    cases hPP' x hx hp with
+    | inl h => exact Or.inl h
+    | inr h =>
+      right
+      have := podEvent_replays_waiting c1 old v kind hkind x.key h.2 h.1
+      rw [hR, List.mem_map] at this
+      obtain ⟨k', hk', he⟩ := this
+      injection he with he
+      rw [← he]; exact hk'
   have hrunAll : runAll c1 [podEvOf c v] = (runEvents (podEvent c1 old v kind).1 (ks.map Ev.replay)).1 := by
     show (runEvents (runEvents c1 _).1 (runEvents c1 _).2).1 = _
     rw [hrun]
     simp only [List.append_nil]
     rw [hR]
-  show InvExcept (runAll c1 _) P Q
+  show InvExcept (runAll c1 _) P' Q
   rw [hrunAll]
   have hnc'' : NoCachedAddr (runEvents (podEvent c1 old v kind).1 (ks.map Ev.replay)).1 := by
     rw [← hrunAll]; exact hnc'
@@ -381,11 +436,12 @@ theorem pod_write_inv (c : Ctl) (v : Pod) (c' : Ctl) (hph : v.phase ≠ "F") (hs
     apply hnc'' sl _ ea hea htg
     rw [hsl]
     exact hsl'
-  have hexc : InvExcept c2 (fun x => P x ∨ x.key ∈ ks) Q := by
+  have hexc : InvExcept c2 (fun x => P' x ∨ x.key ∈ ks) Q := by
     refine ⟨?_, ?_, ?_, ?_, ?_, ?_, by rw [heff.cache]; exact hinv.nodup⟩
     · intro x hx hs hnk
       rw [heff.slices] at hx
-      have hfresh := hinv.fresh x hx hs (fun hp => hnk (Or.inl hp))
+      have hnp : ¬ P x := fun hp => hnk (hPk x hx hp)
+      have hfresh := hinv.fresh x hx hs hnp
       unfold EntryOK at hfresh ⊢
       rw [heff.cache, heff.pods, heff.nodes, heff.smap, hfresh]
       apply buildSlice_congr
@@ -397,7 +453,13 @@ theorem pod_write_inv (c : Ctl) (v : Pod) (c' : Ctl) (hph : v.phase ≠ "F") (hs
             exfalso
             unfold PodGood at hgood
             rw [hfo] at hgood
-            have hg := hgood x hx ea hea (by rw [htg, hsame.1, hsame.2])
+            have href : ea.1.target = some (v.ns, v.name) := by rw [htg, hsame.1, hsame.2]
+            by_cases hvip : v.ip = ""
+            · exact hnk (Or.inl (hnew hfo hvip x hx hs ⟨ea, hea, href⟩))
+            have hg : ea.2 = v.ip ∧ v.ip ≠ "" := by
+              cases hgood with
+              | inl hz => exact absurd hz hvip
+              | inr hall => exact ⟨hall x hx ea hea href, hvip⟩
             have hpark : ea.2 ∈ parkedAddrs c.pods x := by
               unfold parkedAddrs
               have : ¬ (x.fqdn = true ∨ x.svc = "") := by
@@ -409,13 +471,13 @@ theorem pod_write_inv (c : Ctl) (v : Pod) (c' : Ctl) (hph : v.phase ≠ "F") (hs
               refine ⟨ea, hea, ?_⟩
               rw [htg, hsame.1, hsame.2]
               simp [hfo]
-            have hreg := hinv.parked x hx (fun hp => hnk (Or.inl hp)) ea.2 hpark
+            have hreg := hinv.parked x hx hnp ea.2 hpark
             rw [hg.1] at hreg
             exact hnk (Or.inr (htake hkind hg.2 x.key hreg))
           | some o =>
             unfold PodGood at hgood
             rw [hfo] at hgood
-            cases hgood.2 with
+            cases hgood.2.1 with
             | inl hsig =>
               simp only [podView, Option.map, Option.some.injEq, Prod.mk.injEq]
               refine ⟨hsig, ?_⟩
@@ -423,7 +485,7 @@ theorem pod_write_inv (c : Ctl) (v : Pod) (c' : Ctl) (hph : v.phase ≠ "F") (hs
               exact localityOf_congr _ _ _ hsig.2.2.2.2 hsig.2.2.1
             | inr hun =>
               exfalso
-              exact hun x hx ea hea (by rw [htg, hsame.1, hsame.2])
+              exact hun x hx hnp ea hea (by rw [htg, hsame.1, hsame.2])
         · rw [hother tns tn hsame]
       · intro ea hea htg
         rw [podByIP_empty _ _ _ _ (hnc x hx ea hea htg), podByIP_empty _ _ _ _ (hnc2 x hx ea hea htg)]
@@ -440,7 +502,7 @@ theorem pod_write_inv (c : Ctl) (v : Pod) (c' : Ctl) (hph : v.phase ≠ "F") (hs
         by_cases hsame : tns = v.ns ∧ tn = v.name
         · rw [hsame.1, hsame.2, hfind] at hnone; cases hnone
         · rw [hother tns tn hsame] at hnone; exact hnone
-      cases heff.resync a x.key (hinv.parked x hx (fun hp => hnk (Or.inl hp)) a ha') with
+      cases heff.resync a x.key (hinv.parked x hx (fun hp => hnk (hPk x hx hp)) a ha') with
       | inl h => exact h
       | inr h => exact absurd (Or.inr h) hnk
     · intro sv hsv hq
@@ -453,7 +515,7 @@ theorem pod_write_inv (c : Ctl) (v : Pod) (c' : Ctl) (hph : v.phase ≠ "F") (hs
       exact hinv.smapOnly h sv hl
     · intro h
       exact idxOK_unchanged c c2 h (by rw [heff.index]) (by rw [heff.cache]) (by rw [heff.smap]) (hinv.index h)
-  exact (replays_inv ks c2 P hexc hwf2).1
+  exact (replays_inv ks c2 P' hexc hwf2).1
 
 /-- A pod leaves the store (deleted, or hidden by the informer's field selector when it is evicted:
     then the event object `evp` is the new object, not the stored one).  Slices that still refer to the
@@ -573,11 +635,13 @@ theorem pod_evict_inv (c : Ctl) (v : Pod) (c' : Ctl) (hph : v.phase = "F") (hste
 
 /-! ### Node writes -/
 
-/-- A change of the node store is harmless when it leaves the locality of every pod as it was (the
+/-- A change of the node store is harmless when it leaves the locality of every pod that a slice (not exempt)
+    refers to as it was (the
     controller does not refresh endpoints on Node events - finding `locality-built-before-node-change`). -/
 theorem nodes_change_inv (c : Ctl) (nodes' : List Node) {P : Slice → Prop} {Q : Svc → Prop}
     (hinv : InvExcept c P Q) (hnc : NoCachedAddr c)
-    (hgood : ∀ p ∈ c.pods, localityOf nodes' p = localityOf c.nodes p) :
+    (hgood : ∀ sl ∈ c.slices, Servable sl → ¬ P sl → ∀ ea ∈ sl.addrPairs, ∀ tns tn, ea.1.target = some (tns, tn) →
+      ∀ p, findPod c.pods tns tn = some p → localityOf nodes' p = localityOf c.nodes p) :
     InvExcept { c with nodes := nodes' } P Q := by
   refine ⟨?_, hinv.noForeign, hinv.parked, hinv.smapSome, hinv.smapOnly, ?_, hinv.nodup⟩
   · intro x hx hs hnp
@@ -590,9 +654,8 @@ theorem nodes_change_inv (c : Ctl) (nodes' : List Node) {P : Slice → Prop} {Q 
       cases hf : findPod c.pods tns tn with
       | none => rfl
       | some p =>
-        have hp : p ∈ c.pods := List.mem_of_find?_eq_some hf
         simp only [podView, Option.map, Option.some.injEq, Prod.mk.injEq, true_and]
-        exact (hgood p hp).symm
+        exact (hgood x hx hs hnp ea hea tns tn htg p hf).symm
     · intro ea hea htg
       rw [podByIP_empty _ _ _ _ (hnc x hx ea hea htg)]
       rfl
